@@ -51,6 +51,15 @@ CLAIMS = {
             "unprotect with ideal crypto.",
             "process-crash file-system model (vf/fakefs.py), identity JSON stub, ideal AEAD/HKDF/CBOR and filelock stand-ins, at most 3 operations per life and two lives",
             TECH_E1 + " with a symbolic crash point", "DESIGN.md 5 C13"),
+    "C15": ("Length kernels (_encode_length, _extract_message_size) against the RFC 8323 3.2 reading for every length < 2^32+65805 and "
+            "every header of 0..5 symbolic bytes incl. prefix-determinism; _serialize/_decode_message against a reference frame codec "
+            "at the 12/13 and 268/269 boundaries; every 2-cut chunking (by symbolic index) and every k-byte slicing of catalogue "
+            "streams dispatches exactly what the unchunked stream dispatches; a frame arriving after an incomplete header consumes "
+            "exactly the announced bytes; rule obligations on the real TcpConnection/_TCPPooling/TokenManager (CSM gate incl. "
+            "Ping/Pong first, oversize with symbolic announced length, TKL 9..15, unparsable frames, critical options by symbolic "
+            "number, Ping/Pong token, Release/Abort/connection loss failing pending requests, empty messages ignored).",
+            "fake stream transport; recording token manager above the real _TCPPooling; chunk contents concrete catalogue streams, cut positions by index",
+            TECH_E1, "DESIGN.md 5 C15"),
     "C14": ("From every symbolic pre-state (per remote: exchange open, retransmitted once, 0..2 queued) built through the real "
             "send_message API, every event sequence of depth 2 (quick) / 3 (thorough) over 14 event kinds is explored on the real "
             "MessageManager and compared step by step with a reference NSTART=1 queue model (wire log identity and order, failure "
